@@ -458,6 +458,28 @@ def execute(case, api):
             # the BatchProxy driven as a context manager, everything (also a failing submit, handled by the caller) inside the block
             with batch:
                 guarded(do_queue, do_submit)
+        elif style == "copy-diverge":
+            # the first part of the calls is queued on a template, the template is copied, the rest is queued on the COPY and a decoy on
+            # the template (which is never submitted): what the copy sends is its own queue only
+            k = len(calls) // 2
+            full = calls
+
+            def queue_on(bp, part):
+                for name, args, kwargs in part:
+                    parts = name.split(".")
+                    m = getattr(bp, parts[0])
+                    for part_ in parts[1:]:
+                        m = getattr(m, part_)
+                    m(*args, **kwargs)
+
+            def do_copy():
+                nonlocal batch
+                queue_on(batch, full[:k])
+                template = batch
+                batch = copy.copy(template)
+                queue_on(batch, full[k:])
+                template.incr(1000003)           # decoy: belongs to the template's queue, which nobody submits
+            guarded(do_copy, do_submit)
         elif style == "with-after":
             # the block only builds the batch, it is submitted behind it
             with batch:
@@ -777,7 +799,7 @@ def case_strategy(draw, ser, servertype):
             if mode == "two" and n >= 2:
                 calls[draw(st.integers(0, n - 1))] = copy.deepcopy(draw(failing_call))
     case = {"ser": ser, "servertype": servertype, "oneway": draw(st.booleans()), "calls": calls}
-    style = draw(st.sampled_from(["plain", "plain", "with-inside", "with-after"]))
+    style = draw(st.sampled_from(["plain", "plain", "with-inside", "with-after", "copy-diverge"]))
     if style != "plain":
         case["style"] = style
     if draw(st.integers(0, 2)) == 0:
